@@ -397,6 +397,12 @@ class RMask:
                 return RMask(self.frame, _and(l.cond, r.cond), f"({l.note})&({r.note})")
             if isinstance(op, ast.BitOr):
                 return RMask(self.frame, _or(l.cond, r.cond), f"({l.note})|({r.note})")
+        if isinstance(op, ast.Mult) and ((isinstance(l, RMask) and isinstance(r, RSeries)) or (isinstance(l, RSeries) and isinstance(r, RMask))):
+            m, ser = (l, r) if isinstance(l, RMask) else (r, l)
+            c = ser.cell
+            # True * v = v, False * v = 0 (and anything * NaN = NaN)
+            val = _ite(m.cond, c.val if c.val is not None else 0, 0)
+            return RSeries(ser.frame, Cell(c.kind, val), f"({m.note})*{ser.name}")
         raise Unsupported("mask arithmetic", node)
 
     def sym_getattr(self, interp, name, node):
@@ -541,6 +547,8 @@ class RIndex:
             return getattr(self.frame, "inferred_freq", SOpaque("inferred_freq"))
         if name in ("max", "min"):
             return _Callable(lambda *a, **k: _OpaqueStamp(f"index.{name}()"))
+        if name == "copy":
+            return _Callable(lambda *a, **k: RIndex(self.frame))
         if name == "dtype":
             return _IndexDtype()
         if name == "date":
@@ -654,6 +662,9 @@ class _RNextDelta:
             c = as_cell(interp, r[0], node)
             if c.kind == NAN:
                 return _RNextDelta(self.frame, self.clock, True, self.unit)
+        if isinstance(op, ast.Div) and l is self and self.unit == "seconds" and self.complete and is_num(r) and r > 0:
+            u = next_label_universe(interp, self.frame)
+            return RSeries(self.frame, Cell(z3.If(u["is_last"], NAN, NUM), u["next_seconds"] / r), f"seconds to next label / {r}")
         if isinstance(op, ast.Div) and isinstance(r, _RNextDelta) and r.unit == "seconds" and r.complete and (is_num(l) or is_z3(l)):
             u = next_label_universe(interp, r.frame)
             q = interp.run.fresh_real("quot")
@@ -720,6 +731,22 @@ class RSeries:
             return _Callable(lambda *a, **k: RSeries(self.frame, Cell(c.kind, c.val), self.name))
         if name in ("min", "max"):
             return _Callable(lambda *a, **k: z3.Real(f"{name}!{self.frame.label}!{self.name}"))
+        if name == "sum":
+            def total(*a, **k):
+                # a global quantity: an unknown real; what the ARBITRARY ROW puts into it (NaN cells are skipped) is kept as ghost state
+                log = interp.run.__dict__.setdefault("sum_log", [])
+                S = z3.Real(f"sum!{len(log)}!{self.frame.label}")
+                log.append({"sum": S, "kind": c.kind, "val": c.val, "mult": self.frame.mult, "name": self.name})
+                return S
+            return _Callable(total)
+        if name == "shape":
+            return (self.frame.sym_len(interp, node),)
+        if name == "groupby":
+            def groupby(key=None, *a, **k):
+                if not isinstance(key, RSeries):
+                    raise Unsupported("Series.groupby by something other than a series of the same rows", node)
+                return _RGroupBy(self, key)
+            return _Callable(groupby)
         if name == "median":
             # a global quantity of the column: an unknown real (named after the frame and column so that contracts can refer to it)
             return _Callable(lambda *a, **k: z3.Real(f"median!{self.frame.label}!{self.name}"))
@@ -886,6 +913,24 @@ class RSeries:
         return RMask(self.frame, self.cell.is_nan(), f"isnan({self.name})")
 
 
+class _RGroupBy:
+    def __init__(self, series, key):
+        self.series, self.key = series, key
+
+    def sym_getattr(self, interp, name, node):
+        use(interp, "pd.resample")
+        s = self.series
+
+        def mk(func):
+            return RAgg(func, s.name, s.frame.root, tuple(s.frame.filters), f"groupby({self.key.name})", s.frame.index_tag,
+                        contrib={"kind": s.cell.kind, "val": s.cell.val, "mult": s.frame.mult, "slot_seconds": None})
+        if name in ("sum", "mean", "first", "last", "count", "min", "max", "median"):
+            return _Callable(lambda *a, **k: mk(name))
+        if name in ("apply", "agg", "aggregate"):
+            return _Callable(lambda f, *a, **k: mk("apply:" + describe_callable(interp, f)))
+        raise Unsupported(f"GroupBy.{name}", node)
+
+
 class RResampler:
     def __init__(self, series, rule):
         self.series = series
@@ -967,7 +1012,29 @@ class RAgg:
             return self.contrib
         if name == "iloc":
             return _AggILoc(self)
+        if name in ("min", "max", "mean", "sum") and not getattr(self, "is_bool", False):
+            return _Callable(lambda *a, **k: interp.run.fresh_real(f"{name}_of_aggregate"))
+        if name in ("any", "all") and getattr(self, "is_bool", False):
+            def anyall(*a, **k):
+                log = interp.run.__dict__.setdefault("agg_bool_log", [])
+                b = z3.Bool(f"{name}!agg!{len(log)}")
+                base, opn, thr = getattr(self, "cmp", (self.func, None, None))
+                log.append({"bool": b, "what": f"{name}: {self.func} [{self.column}] {self.rule}", "how": name, "func": base, "op": opn, "threshold": thr,
+                            "column": self.column, "rule": self.rule})
+                return b
+            return _Callable(anyall)
         raise Unsupported(f"aggregated Series.{name}", node)
+
+    def sym_compare(self, interp, op, l, r, node):
+        other = r if l is self else l
+        if not (is_num(other) or is_z3(other)):
+            raise Unsupported("comparison of an aggregate with a non-number", node)
+        if l is not self:
+            raise Unsupported("number <op> aggregate", node)
+        out = self._like(f"({self.func} {type(op).__name__} {other})")
+        out.is_bool = True
+        out.cmp = (self.func, type(op).__name__, other)
+        return out
 
     def sym_binop(self, interp, op, l, r, node):
         def d(x):
@@ -1122,6 +1189,8 @@ def pd_series(interp, args, kwargs, node, frame):
     index = kwargs.get("index")
     if isinstance(index, RIndex):
         use(interp, "pd.rowwise")
+        if isinstance(data, RSeries) and data.frame.root == index.frame.root:
+            return RSeries(index.frame, data.cell, kwargs.get("name") or data.name)
         if isinstance(data, _RNextDelta):
             if data.frame.root != index.frame.root:
                 raise Unsupported("Series of index differences on another frame's index", node)
@@ -1313,6 +1382,26 @@ def install():
     def _row_series(interp, args, kwargs, node, frame):
         f = _row_frame(interp, [[args[0]]], {"label": kwargs.get("label", "series")}, node, frame)
         return RSeries(f, f.cells[args[0]], args[0])
+
+    @libmodels.api("sum_log")
+    def _sum_log(interp, args, kwargs, node, frame):
+        """[(sum symbol, kind, value, multiplicity, series name)] of every Series.sum() so far, in call order"""
+        return [(e["sum"], e["kind"], e["val"], e["mult"], e["name"]) for e in interp.run.__dict__.get("sum_log", [])]
+
+    @libmodels.api("round_log")
+    def _round_log(interp, args, kwargs, node, frame):
+        return list(interp.run.__dict__.get("round_log", []))
+
+    @libmodels.api("agg_bool_log")
+    def _agg_bool_log(interp, args, kwargs, node, frame):
+        return [(e["bool"], e["what"], e["how"], e["func"], e["op"], e["threshold"], e["column"], e["rule"]) for e in interp.run.__dict__.get("agg_bool_log", [])]
+
+    @libmodels.api("recognise")
+    def _recognise(interp, args, kwargs, node, frame):
+        """the structural shape the contract was written for; anything else is UNDECIDED (not a violation): the code may be right in another spelling"""
+        if args[0] is True:
+            return True
+        raise Unsupported(f"structure not recognised by the contract: {args[1] if len(args) > 1 else ''}", node)
 
     @libmodels.api("on_grid")
     def _on_grid(interp, args, kwargs, node, frame):
